@@ -51,6 +51,11 @@ pub enum Simple {
     SendH { host: String, node: String, lane: String, value: i32, ow: bool },
     #[form(tag = "fail")]
     Fail,
+    /// only the pair agent has the optional lane `o`
+    #[form(tag = "seto")]
+    SetO(#[form(header_body)] i32),
+    #[form(tag = "clro")]
+    ClrO,
     /// create a registered commander for a lane of a local node and keep it under `name`
     #[form(tag = "mkc")]
     MkC { name: String, node: String, lane: String },
@@ -272,7 +277,7 @@ impl TestLifecycle {
                 Simple::Clr => Box::new(context.clear(TestAgent::M)),
                 Simple::Push(x) => Box::new(context.supply(TestAgent::S, x).followed_by(context.effect(move || log.push(Truth::Push(x))))),
                 Simple::SetVs(x) => Box::new(context.set_value(TestAgent::VS, x)),
-                Simple::SetWs(_) => Box::new(context.effect(|| ())),
+                Simple::SetWs(_) | Simple::SetO(_) | Simple::ClrO => Box::new(context.effect(|| ())),
                 Simple::UpdMs { k, v } => Box::new(context.update(TestAgent::MS, k, v)),
                 Simple::RemMs(k) => Box::new(context.remove(TestAgent::MS, k)),
                 Simple::ClrMs => Box::new(context.clear(TestAgent::MS)),
